@@ -235,8 +235,8 @@ class C13(Sim):
         except Exception:
             total = 50
         total = max(total, 1)
-        if tier == "thorough" and total <= 6000:
-            lines = range(1, total + 1)
+        if tier == "thorough" and total <= 6000 and rng.random() < 0.2:
+            lines = range(1, total + 1)  # every line of the target (one in five crash runs; the others sample)
         else:
             lines = sorted({1, 2, total, max(1, total - 1)} | {rng.randint(1, total) for _ in range(10)})
         for n in lines:
